@@ -2,8 +2,8 @@
    Model: OSU.Model.FileCache (state machine over an explicit directory).
    Only statements; every proof is [exact lemma]. *)
 From Coq Require Import ZArith List Bool.
-From OSU.Model Require Import FileCache.
-From OSU.Proofs Require Import FileCacheBase FileCacheInv FileCacheGet FileCacheHist FileCacheReq FileCacheFaults.
+From OSU.Model Require Import FileCache FileCacheSpec.
+From OSU.Proofs Require Import FileCacheBase FileCacheInv FileCacheGet FileCacheHist FileCacheReq FileCacheFaults FileCacheRefine.
 Import ListNotations.
 Open Scope Z_scope.
 
@@ -98,6 +98,32 @@ Proof. exact get_frame. Qed.
 Theorem parallel_iff_sequential : forall s ms s' bs,
   download_all s ms = (s', bs, DlOk) <-> download s ms = (s', bs, DlOk).
 Proof. intros s ms s' bs. split; [apply parallel_equals_sequential | apply sequential_equals_parallel]. Qed.
+
+(* REFINEMENT.  The abstract specification (Model/FileCacheSpec.v) is a list of (name, content)
+   in recency order with a capacity: a hit moves its entry to the recent end, a miss appends the
+   fetched content, the capacity grows only when one request exceeds it, and after a request that
+   fetched something entries are dropped from the old end while the total exceeds the capacity.
+   [Ref s A]: the abstract list has exactly the registered names, each with the bytes on disk, and
+   its order is the order of the time stamps.  Every fault-free request (pairwise distinct URIs)
+   of the concrete machine is simulated by the abstract request and returns the same paths; so
+   is every history of get / remove / purge from an empty directory. *)
+Theorem get_refines_abstract_lru : forall s A l,
+  Inv s -> alive s = true -> Ref s A -> NoDup (map q_name l) -> (forall q, In q l -> plain q) ->
+  Ref (fst (get s l)) (fst (aget A l)) /\ snd (get s l) = Paths (snd (aget A l)) /\ alive (fst (get s l)) = true.
+Proof. exact get_refines. Qed.
+
+Theorem histories_refine_abstract_lru : forall ops m p a,
+  0 <= m -> Forall api_op ops ->
+  Ref (run (init m p a) ops) (fold_left astep ops (mkaspec [] m)) /\ alive (run (init m p a) ops) = true.
+Proof.
+  intros ops m p a Hm Hall. apply run_refines; [assumption | now apply Inv_init | reflexivity | apply Ref_init].
+Qed.
+
+(* eviction of the concrete machine = dropping from the old end of the abstract list *)
+Theorem eviction_refines_drop_oldest : forall s a, W s -> Rel (disk s) a -> same_names s a ->
+  Rel (disk (evict s)) (adrop (length a) (maxb s) a) /\
+  same_names (evict s) (adrop (length a) (maxb s) a) /\ maxb (evict s) = maxb s.
+Proof. exact evict_refines. Qed.
 
 (* non-vacuity: a concrete 3-URI history that forces two evictions satisfies every premise *)
 Definition ex_q (r : nat) := mkreq r 0 None None (DOk 0).
